@@ -148,9 +148,18 @@ Inductive glyf_out :=
 
 Definition zlen {A} (l : list A) : Z := Z.of_nat (length l).
 
-(* fontbe glyphs.rs check_fits_i16 on the points of the paths *)
+(* fontbe glyphs.rs check_path_fits_i16: check_fits_i16 on x and y of EVERY point of EVERY
+   element of the path — the end point of a move/line, the control point and the end point
+   of a quad, both control points and the end point of a cubic.  A [contour] therefore
+   lists all its points, on-curve and off-curve alike, in source order; whether a point is
+   on the curve plays no role in any narrowing step (glyf stores both kinds the same way).
+   Correspondence is checked for contours whose first segment is a line and whose control
+   points are single quadratic ones (then every point is emitted, in [emit_order]). *)
 Definition pt_fitsb (p : pt) : bool := fits_i16 (ot_round (fst p)) && fits_i16 (ot_round (snd p)).
 Definition coords_fitb (cs : list contour) : bool := forallb (forallb pt_fitsb) cs.
+(* GlyphWork::exec runs that check on the path of every master of the glyph (the points of
+   every master are rounded to i16 before the gvar deltas are taken) *)
+Definition masters_coords_fitb (masters : list (list contour)) : bool := forallb coords_fitb masters.
 (* fontbe glyphs.rs check_point_deltas_fit_i16: every step, the first one from 0 *)
 Fixpoint diffs_fitb (last : Z) (l : list Z) : bool :=
   match l with [] => true | x :: t => fits_i16 (x - last) && diffs_fitb x t end.
